@@ -73,11 +73,134 @@ func c15Check(c *core.Ctx, s histScenario) {
 	h := s.History
 	m := &rm.Model{}
 	var ctr uint64
-	cs := u.NewCachingScheduleTracker(len(h.Blocks))
+	// the size hint of the tracker is only a hint: exact, none, too small
+	sel := core.FP(histShape(h)) // deterministic in the history itself (enumerated histories share one tag)
+	hint := len(h.Blocks)
+	switch sel % 3 {
+	case 1:
+		hint = 0
+	case 2:
+		hint = len(h.Blocks) / 2
+	}
+	cs := u.NewCachingScheduleTracker(hint)
 	created := map[int]int{}
 	deleted := map[int]int{}
 	overwrite := false // some block's additions overwrote an empty root
 	sameBlock := false // ... an empty root that the same block created
+	// "any recorded sequence of block summaries": every prefix is one.  In half of the histories a
+	// schedule is also asked for part-way (after block mid), then recording goes on.
+	mid := -1
+	if len(h.Blocks) >= 2 && (sel>>8)%2 == 0 {
+		mid = 1 + int((sel>>16)%uint64(len(h.Blocks)-1))
+	}
+	judge := func(nb int, final bool) bool {
+		nLeaves := 0
+		for sl, cb := range created {
+			if cb < nb && sl+1 > nLeaves {
+				nLeaves = sl + 1
+			}
+		}
+		qualifying := 0
+		for sl, db := range deleted {
+			if cb, ok := created[sl]; ok && cb < nb && db < nb {
+				qualifying++
+			}
+		}
+		trig := ""
+		if overwrite {
+			trig = "history-overwrites-empty-root"
+			if sameBlock {
+				trig = "history-overwrites-empty-root,emptied-in-same-block"
+			}
+		}
+		if !final {
+			trig = joinTrig(trig, "schedule-asked-part-way")
+		}
+		mems := []int{1, 2, 3, 5, nLeaves}
+		if !final {
+			mems = []int{nLeaves, 2, 1} // different limits in a different order on the same tracker
+		}
+		if nLeaves == 0 {
+			mems = []int{1}
+		}
+		if nLeaves > 60000 {
+			mems = []int{nLeaves + 30000} // the huge suite: a limit above 2^16 (each schedule costs ~20 s)
+			if c.Tier == "thorough" {
+				mems = append(mems, 65536)
+			}
+		}
+		for _, mem := range mems {
+			if mem < 1 {
+				continue
+			}
+			c.Eval(1)
+			sch := cs.GenerateCachingSchedule(mem)
+			desc := fmt.Sprintf("maxMemory=%d, %d blocks recorded, %d leaves ever, %d created-and-deleted: schedule %v", mem, nb, nLeaves, qualifying, sch)
+			if nLeaves > 2000 {
+				desc = fmt.Sprintf("maxMemory=%d, %d blocks recorded, %d leaves ever, %d created-and-deleted (schedule too long to print)", mem, nb, nLeaves, qualifying)
+			}
+			if len(sch) != nb {
+				c.Violate("GenerateCachingSchedule", "schedule-length", trig, desc)
+				return false
+			}
+			seen := map[uint64]bool{}
+			type life struct{ cb, db int }
+			var lives []life
+			for bi, ps := range sch {
+				if !sort.SliceIsSorted(ps, func(i, j int) bool { return ps[i] < ps[j] }) {
+					c.Violate("GenerateCachingSchedule", "not-ascending", trig, fmt.Sprintf("block %d: %s", bi, desc))
+					return false
+				}
+				for _, q := range ps {
+					sl := int(q)
+					cb, ok := created[sl]
+					if !ok || q >= uint64(nLeaves) {
+						c.Violate("GenerateCachingSchedule", "not-a-slot", trig, fmt.Sprintf("block %d names position %d which is no insertion slot: %s", bi, q, desc))
+						return false
+					}
+					if cb != bi {
+						c.Violate("GenerateCachingSchedule", "wrong-block", trig, fmt.Sprintf("block %d names slot %d which was added in block %d: %s", bi, q, cb, desc))
+						return false
+					}
+					db, ok := deleted[sl]
+					if !ok || db >= nb {
+						c.Violate("GenerateCachingSchedule", "never-deleted", trig, fmt.Sprintf("block %d names slot %d which is never deleted in a recorded block: %s", bi, q, desc))
+						return false
+					}
+					if seen[q] {
+						c.Violate("GenerateCachingSchedule", "duplicate", trig, fmt.Sprintf("slot %d listed twice: %s", q, desc))
+						return false
+					}
+					seen[q] = true
+					lives = append(lives, life{cb, db})
+				}
+			}
+			for t := 0; t < nb; t++ {
+				n := 0
+				for _, l := range lives {
+					if l.cb <= t && t < l.db {
+						n++
+					}
+				}
+				if n > mem {
+					c.Violate("GenerateCachingSchedule", "memory-limit-exceeded", trig, fmt.Sprintf("after block %d, %d scheduled leaves are alive: %s", t, n, desc))
+					return false
+				}
+			}
+			if mem >= nLeaves && len(seen) != qualifying {
+				c.Violate("GenerateCachingSchedule", "incomplete-with-unbounded-memory", trig, fmt.Sprintf("%d of %d qualifying leaves scheduled: %s", len(seen), qualifying, desc))
+				return false
+			}
+			if qualifying > 0 {
+				c.Distinct(core.FP(histShape(h), mem, nb))
+			}
+			c.Max("max_scheduled_leaves", len(seen))
+		}
+		if !final {
+			c.Count("schedules_asked_part_way_through_the_recording", 1)
+		}
+		return true
+	}
 	for bi, b := range h.Blocks {
 		f := m.Forest()
 		var targets []uint64
@@ -103,6 +226,11 @@ func c15Check(c *core.Ctx, s histScenario) {
 			return
 		}
 		cs.AddBlockSummary(targets, uint16(b.Adds))
+		if bi+1 == mid && len(m.Leaves) <= 2000 {
+			if !judge(bi+1, false) {
+				return
+			}
+		}
 	}
 	nLeaves := len(m.Leaves)
 	qualifying := 0
@@ -111,89 +239,8 @@ func c15Check(c *core.Ctx, s histScenario) {
 			qualifying++
 		}
 	}
-	trig := ""
-	if overwrite {
-		trig = "history-overwrites-empty-root"
-		if sameBlock {
-			trig = "history-overwrites-empty-root,emptied-in-same-block"
-		}
-	}
-	mems := []int{1, 2, 3, 5, nLeaves}
-	if nLeaves == 0 {
-		mems = []int{1}
-	}
-	if nLeaves > 60000 {
-		mems = []int{nLeaves + 30000} // the huge suite: a limit above 2^16 (each schedule costs ~20 s)
-		if c.Tier == "thorough" {
-			mems = append(mems, 65536)
-		}
-	}
-	for _, mem := range mems {
-		if mem < 1 {
-			continue
-		}
-		c.Eval(1)
-		sch := cs.GenerateCachingSchedule(mem)
-		desc := fmt.Sprintf("maxMemory=%d, %d blocks, %d leaves ever, %d created-and-deleted: schedule %v", mem, len(h.Blocks), nLeaves, qualifying, sch)
-		if nLeaves > 2000 {
-			desc = fmt.Sprintf("maxMemory=%d, %d blocks, %d leaves ever, %d created-and-deleted (schedule too long to print)", mem, len(h.Blocks), nLeaves, qualifying)
-		}
-		if len(sch) != len(h.Blocks) {
-			c.Violate("GenerateCachingSchedule", "schedule-length", trig, desc)
-			return
-		}
-		seen := map[uint64]bool{}
-		type life struct{ cb, db int }
-		var lives []life
-		for bi, ps := range sch {
-			if !sort.SliceIsSorted(ps, func(i, j int) bool { return ps[i] < ps[j] }) {
-				c.Violate("GenerateCachingSchedule", "not-ascending", trig, fmt.Sprintf("block %d: %s", bi, desc))
-				return
-			}
-			for _, q := range ps {
-				sl := int(q)
-				cb, ok := created[sl]
-				if !ok || q >= uint64(nLeaves) {
-					c.Violate("GenerateCachingSchedule", "not-a-slot", trig, fmt.Sprintf("block %d names position %d which is no insertion slot: %s", bi, q, desc))
-					return
-				}
-				if cb != bi {
-					c.Violate("GenerateCachingSchedule", "wrong-block", trig, fmt.Sprintf("block %d names slot %d which was added in block %d: %s", bi, q, cb, desc))
-					return
-				}
-				db, ok := deleted[sl]
-				if !ok {
-					c.Violate("GenerateCachingSchedule", "never-deleted", trig, fmt.Sprintf("block %d names slot %d which is never deleted: %s", bi, q, desc))
-					return
-				}
-				if seen[q] {
-					c.Violate("GenerateCachingSchedule", "duplicate", trig, fmt.Sprintf("slot %d listed twice: %s", q, desc))
-					return
-				}
-				seen[q] = true
-				lives = append(lives, life{cb, db})
-			}
-		}
-		for t := range h.Blocks {
-			n := 0
-			for _, l := range lives {
-				if l.cb <= t && t < l.db {
-					n++
-				}
-			}
-			if n > mem {
-				c.Violate("GenerateCachingSchedule", "memory-limit-exceeded", trig, fmt.Sprintf("after block %d, %d scheduled leaves are alive: %s", t, n, desc))
-				return
-			}
-		}
-		if mem >= nLeaves && len(seen) != qualifying {
-			c.Violate("GenerateCachingSchedule", "incomplete-with-unbounded-memory", trig, fmt.Sprintf("%d of %d qualifying leaves scheduled: %s", len(seen), qualifying, desc))
-			return
-		}
-		if qualifying > 0 {
-			c.Distinct(core.FP(histShape(h), mem))
-		}
-		c.Max("max_scheduled_leaves", len(seen))
+	if !judge(len(h.Blocks), true) {
+		return
 	}
 	if overwrite {
 		c.Count("histories_overwriting_empty_roots", 1)
